@@ -312,7 +312,40 @@ def traversal_idiom(index, ctx):
             and not (isinstance(n.value, ast.Name))]
     roots_ok = bool(init) and any((isinstance(x, ast.BinOp) and isinstance(x.op, ast.Sub)) or (isinstance(x, ast.Call) and isinstance(x.func, ast.Attribute) and x.func.attr == "difference")
                                   for x in ast.walk(init[0].value))
-    ctx.require(roots_ok, "R4", f"{F.short}: traversal starts from the roots minus the excluded nodes", f"`{norm_text(init[0]) if init else ''}`",
+    how_roots = f"`{norm_text(init[0]) if init else ''}`"
+    if not roots_ok:
+        # the subtraction may be done (1) by the caller before the call, or (2) root by root: `for r in roots: if r not in <closed>: <schedule r>`
+        fparams = [a.arg for a in fn.args.args]
+        for r_loop in [x for x in ast.walk(fn) if isinstance(x, ast.For) and isinstance(x.iter, ast.Name) and x.iter.id in fparams[:1] and isinstance(x.target, ast.Name)]:
+            rv = r_loop.target.id
+            guards_ = [t for t in ast.walk(r_loop) if isinstance(t, ast.Compare) and len(t.ops) == 1 and isinstance(t.ops[0], (ast.NotIn, ast.In)) and isinstance(t.left, ast.Name) and t.left.id == rv]
+            if guards_ and len(r_loop.body) == 1 and isinstance(r_loop.body[0], ast.If):
+                g0 = r_loop.body[0]
+                pos = isinstance(g0.test, ast.Compare) and isinstance(g0.test.ops[0], ast.NotIn) and not g0.orelse
+                neg = isinstance(g0.test, ast.Compare) and isinstance(g0.test.ops[0], ast.In) and g0.body and isinstance(g0.body[0], ast.Continue)
+                if pos or neg:
+                    roots_ok, how_roots = True, f"roots scheduled one by one under `{norm_text(g0.test)}`"
+        if not roots_ok:
+            fns_ = [f for f in index.all_functions("torchjd.autojac") if f.parent is None and f is not F]
+            sites = [(f, c) for f in fns_ for c in ast.walk(f.node) if isinstance(c, ast.Call) and isinstance(c.func, ast.Name) and c.func.id == F.name]
+            ok_sites = 0
+            for f, c in sites:
+                ra = next((k_.value for k_ in c.keywords if k_.arg == fparams[0]), c.args[0] if c.args else None)
+                ea = next((k_.value for k_ in c.keywords if len(fparams) > 1 and k_.arg == fparams[1]), c.args[1] if len(c.args) > 1 else None)
+                if not (isinstance(ra, ast.Name) and isinstance(ea, ast.Name)):
+                    continue
+                before = [s_ for s_ in ast.walk(f.node) if isinstance(s_, ast.stmt) and getattr(s_, "lineno", 0) < c.lineno]
+                sub = any(isinstance(s_, ast.Expr) and isinstance(s_.value, ast.Call) and isinstance(s_.value.func, ast.Attribute) and s_.value.func.attr == "difference_update"
+                          and norm_text(s_.value.func.value) == ra.id and len(s_.value.args) == 1 and norm_text(s_.value.args[0]) == ea.id for s_ in before) or \
+                    any(isinstance(s_, (ast.Assign, ast.AugAssign)) and norm_text(s_.targets[0] if isinstance(s_, ast.Assign) else s_.target) == ra.id and
+                        ((isinstance(s_, ast.AugAssign) and isinstance(s_.op, ast.Sub) and norm_text(s_.value) == ea.id) or
+                         (isinstance(s_, ast.Assign) and isinstance(s_.value, ast.BinOp) and isinstance(s_.value.op, ast.Sub) and norm_text(s_.value.right) == ea.id) or
+                         (isinstance(s_, ast.Assign) and isinstance(s_.value, ast.Call) and isinstance(s_.value.func, ast.Attribute) and s_.value.func.attr == "difference" and s_.value.args and norm_text(s_.value.args[0]) == ea.id))
+                        for s_ in before)
+                ok_sites += bool(sub)
+            if sites and ok_sites == len(sites):
+                roots_ok, how_roots = True, f"every caller subtracts the excluded nodes from the roots before the call ({len(sites)} call site(s))"
+    ctx.require(roots_ok, "R4", f"{F.short}: traversal starts from the roots minus the excluded nodes", how_roots,
                 f"worklist initialisation `{norm_text(init[0]) if init else '?'}` does not subtract the excluded nodes from the roots", F.loc(init[0]) if init else F.loc())
     # adoptions: (cfg node, what is adopted, conditions known, how, is_collection)
     adoptions = []
@@ -442,6 +475,13 @@ def _variable_mapping(index, ctx, F):
                 ctx.violated("R4", f"{f.short}: every collected leaf accumulator gives its variable",
                              f"`{norm_text(c)[:90]}` drops the leaves for which `{norm_text(cond)}` is false: they are not discovered, so the defaulted call leaves their .grad untouched where the "
                              "explicit call writes it", f.loc(c))
+            if isinstance(c, ast.DictComp) and any(isinstance(x, ast.Attribute) and x.attr == "variable" for x in ast.walk(c.value)):
+                loop_vars = {t.id for g in c.generators for t in ast.walk(g.target) if isinstance(t, ast.Name)}
+                same = norm_text(c.key) == norm_text(c.value) or (isinstance(c.key, ast.Name) and c.key.id in loop_vars)
+                if not same:
+                    ctx.violated("R4", f"{f.short}: one leaf per collected leaf accumulator",
+                                 f"`{norm_text(c)[:90]}` keys the discovered leaves by `{norm_text(c.key)[:50]}`: distinct leaves with the same key (views of one buffer, empty tensors) are merged "
+                                 "into one, so the defaulted call leaves the .grad of the others untouched where the explicit call writes it", f.loc(c))
     ctx.require(ok, "R4", "leaves are the collected nodes' .variable", "mapping present", "the collected AccumulateGrad nodes are not mapped to their .variable", callers[0].loc() if callers else F.loc())
 
 
